@@ -1134,6 +1134,7 @@ fn c06(ix: &Ix, f: &mut Findings) {
 // ------------------------------------------------------------------------------------------ C07
 fn c07(ix: &Ix, f: &mut Findings) {
     if !ix.sim() {
+        c07_graceful(ix, f);
         return;
     }
     for &sp in &ix.samples {
@@ -1263,15 +1264,25 @@ fn c07(ix: &Ix, f: &mut Findings) {
             }
         }
     }
-    // healthy endings: stopped or unreferenced actors finish with on_stop(killed=false)
+    c07_graceful(ix, f);
+}
+
+/// healthy endings (any engine): an actor that ended although no hook of its own panicked or failed and nobody killed it
+/// went through on_stop(killed=false) and its JoinHandle carries a result, not a panic
+fn c07_graceful(ix: &Ix, f: &mut Findings) {
     for (a, x) in ix.actors.iter().enumerate() {
-        if ix.exempt(a) || x.ended.is_none() {
+        let Some((_, sum, _)) = &x.ended else { continue };
+        let own_fault = !x.started_ok() || x.first_hook_panic().is_some() || x.run_err().is_some() || ix.kill_exempt(a) || sum.cancelled;
+        if own_fault {
             continue;
         }
         f.o("C07.graceful");
         match x.stop_enter.first() {
             Some((_, false, _)) => {}
             other => f.v("C07.graceful", Some(a), format!("actor {a} was neither killed nor crashed but on_stop(killed=false) did not run: {:?}", other)),
+        }
+        if let Some(p) = &sum.panic {
+            f.v("C07.graceful", Some(a), format!("actor {a}: no hook panicked or failed and nobody killed it, yet its JoinHandle did not resolve with a result but with a panic: {p}"));
         }
     }
 }
